@@ -143,7 +143,10 @@ impl<M: MemBuilder> AnyVecRaw<M> {
         where M::Mem: MemResizable
     {
         let new_len = cmp::max(self.len, min_capacity);
-        self.mem.resize(new_len);
+        // Never grow. If capacity is already less than the lower limit - this is no-op.
+        if new_len < self.capacity(){
+            self.mem.resize(new_len);
+        }
     }
 
     #[inline]
